@@ -5,7 +5,7 @@ import numpy as np
 import verde as vd
 from hypothesis import strategies as st
 
-from vlib import gen
+from vlib import build, gen
 from vlib.oracles import EPS
 from vlib.runner import Sub, Violation
 
@@ -51,14 +51,13 @@ def cloud_cases(draw):
     shapes.append([count, 1])
     if count == 1:
         shapes.append([])
-    return dict(region=region, e=es, n=ns, shape=draw(st.sampled_from(shapes)), order=draw(st.sampled_from(["C", "F"])),
+    return dict(region=region, e=es, n=ns, shape=draw(st.sampled_from(shapes)), order=draw(st.sampled_from(build.ORDERS)), order2=draw(st.sampled_from(build.ORDERS)),
                 extra=draw(st.booleans()))
 
 
 def check_cloud(case, ctx):
-    e, n = _coords_from(case)
-    if case["order"] == "F" and e.ndim == 2:
-        e, n = np.asfortranarray(e), np.asfortranarray(n)
+    lay_ = build.Lay([case["order"], case.get("order2", case["order"])])
+    e, n = lay_(case["e"], case["shape"]), lay_(case["n"], case["shape"])
     coords = (e, n) + ((np.zeros_like(e),) if case["extra"] else ())
     region = case["region"]
     w, ee, s, nn = region
